@@ -654,6 +654,20 @@ func c12backlog(c *ctx) {
 		for k := 0; k < 5; k++ {
 			ps.accept(1, false)
 		}
+		// a refused stream is not a fault: every connection is still open and in use, both sessions are alive
+		ps.rg.propagate()
+		synctest.Wait()
+		for side := 0; side < 2; side++ {
+			if ps.rg.S[side].sesh.IsClosed() {
+				ps.viol("C12 healthy-session-closed after a refused stream", map[string]any{"side": sname(side), "terminal": ps.rg.S[side].sesh.TerminalMsg()})
+			}
+			for k, cn := range ps.rg.S[side].conns {
+				if cn.isClosed() {
+					ps.viol("C12 connection-closed after a refused stream", map[string]any{"side": sname(side), "conn": k,
+						"what": "the receive loop gave up its connection because recvDataFromRemote refused a frame (accept backlog full); the session goes on with a connection missing and the peer sees a fault that did not happen"})
+				}
+			}
+		}
 		ps.write(0, 1, []byte("after the overflow"))
 		ps.deliverSome(1 << 30)
 		ps.read(1, 1, 100, false)
